@@ -734,28 +734,28 @@ theorem doRebind_rise (cfg : Cfg) (f : Forest) (n : Bool) (t : Nat) (m : Meta) (
       · exact h
       · rw [notify_aliased]; exact h
 
-theorem slicePrepare_rise (cfg : Cfg) (m : Meta) : (vs : List VE) → ∀ (f : Forest) (i : Nat), f.aliased = true →
-    (slicePrepare cfg m f i vs).1.aliased = true
+theorem slicePrepare_rise (cfg : Cfg) (m : Meta) (ix : Nat → Int) : (vs : List VE) → ∀ (f : Forest) (i : Nat), f.aliased = true →
+    (slicePrepare cfg m ix f i vs).1.aliased = true
   | [], f, i, ha => by simp only [slicePrepare]; exact ha
   | v :: vs, f, i, ha => by
     simp only [slicePrepare]
-    by_cases hin : sliceInPlace f m i v = true
-    · rw [if_pos hin]; exact slicePrepare_rise cfg m vs f (i + 1) ha
+    by_cases hin : sliceInPlace f m (ix i) v = true
+    · rw [if_pos hin]; exact slicePrepare_rise cfg m ix vs f (i + 1) ha
     · rw [if_neg hin]
-      have hm := (evalVE_mono cfg none v f (some m.id) false m.part (m.path ++ [Key.i i])).aliased ha
+      have hm := (evalVE_mono cfg none v f (some m.id) false m.part (m.path ++ [Key.i (ix i)])).aliased ha
       split
-      · exact slicePrepare_rise cfg m vs _ (i + 1) hm
-      · exact slicePrepare_rise cfg m vs _ (i + 1) hm
+      · exact slicePrepare_rise cfg m ix vs _ (i + 1) hm
+      · exact slicePrepare_rise cfg m ix vs _ (i + 1) hm
 
-theorem slicePrepare_inv (cfg : Cfg) (m : Meta) : (vs : List VE) → ∀ (f : Forest) (i : Nat), Inv f →
-    (∀ v ∈ vs, v.keysDistinct = true) → (slicePrepare cfg m f i vs).1.aliased = false →
-    Inv (slicePrepare cfg m f i vs).1 ∧ ∀ v ∈ (slicePrepare cfg m f i vs).2, v.keysDistinct = true
+theorem slicePrepare_inv (cfg : Cfg) (m : Meta) (ix : Nat → Int) : (vs : List VE) → ∀ (f : Forest) (i : Nat), Inv f →
+    (∀ v ∈ vs, v.keysDistinct = true) → (slicePrepare cfg m ix f i vs).1.aliased = false →
+    Inv (slicePrepare cfg m ix f i vs).1 ∧ ∀ v ∈ (slicePrepare cfg m ix f i vs).2, v.keysDistinct = true
   | [], f, i, hi, _, _ => by simp only [slicePrepare]; exact ⟨hi, by simp⟩
   | v :: vs, f, i, hi, hk, hal => by
     simp only [slicePrepare] at hal ⊢
-    by_cases hin : sliceInPlace f m i v = true
+    by_cases hin : sliceInPlace f m (ix i) v = true
     · rw [if_pos hin] at hal ⊢
-      have ih := slicePrepare_inv cfg m vs f (i + 1) hi (fun x hx => hk x (by simp [hx])) hal
+      have ih := slicePrepare_inv cfg m ix vs f (i + 1) hi (fun x hx => hk x (by simp [hx])) hal
       refine ⟨ih.1, ?_⟩
       intro x hx
       simp only [List.mem_cons] at hx
@@ -763,15 +763,15 @@ theorem slicePrepare_inv (cfg : Cfg) (m : Meta) : (vs : List VE) → ∀ (f : Fo
       · exact hk _ (by simp)
       · exact ih.2 x hx
     · rw [if_neg hin] at hal ⊢
-      have hm := evalVE_mono cfg none v f (some m.id) false m.part (m.path ++ [Key.i i])
-      have hv := evalVE_shape cfg none v f (some m.id) false m.part (m.path ++ [Key.i i]) hi.shape (hk v (by simp))
-      have he := fun h => evalVE_ids cfg none [] v f (some m.id) false m.part (m.path ++ [Key.i i]) hi.nb (pendOk_none f) h
-      generalize evalVE cfg f none (some m.id) false m.part (m.path ++ [Key.i i]) v = r at hal hm hv he ⊢
+      have hm := evalVE_mono cfg none v f (some m.id) false m.part (m.path ++ [Key.i (ix i)])
+      have hv := evalVE_shape cfg none v f (some m.id) false m.part (m.path ++ [Key.i (ix i)]) hi.shape (hk v (by simp))
+      have he := fun h => evalVE_ids cfg none [] v f (some m.id) false m.part (m.path ++ [Key.i (ix i)]) hi.nb (pendOk_none f) h
+      generalize evalVE cfg f none (some m.id) false m.part (m.path ++ [Key.i (ix i)]) v = r at hal hm hv he ⊢
       obtain ⟨r1, r2⟩ := r
       cases r2 with
       | leaf a =>
         simp only at hal hm hv he ⊢
-        have ih := slicePrepare_inv cfg m vs r1 (i + 1) ⟨hi.nb.of_mono hm, hv.1⟩ (fun x hx => hk x (by simp [hx])) hal
+        have ih := slicePrepare_inv cfg m ix vs r1 (i + 1) ⟨hi.nb.of_mono hm, hv.1⟩ (fun x hx => hk x (by simp [hx])) hal
         refine ⟨ih.1, ?_⟩
         intro x hx
         simp only [List.mem_cons] at hx
@@ -782,7 +782,7 @@ theorem slicePrepare_inv (cfg : Cfg) (m : Meta) : (vs : List VE) → ∀ (f : Fo
         simp only at hal hm hv he ⊢
         have hal1 : r1.aliased = false :=
           unal_of_rise (f := { r1 with roots := r1.roots ++ [Tree.node nm nits] }) (g := _)
-            (slicePrepare_rise cfg m vs _ (i + 1)) hal
+            (slicePrepare_rise cfg m ix vs _ (i + 1)) hal
         have hnb : NB { r1 with roots := r1.roots ++ [Tree.node nm nits] } := by
           refine nb_of_eval f r1 _ _ hi.nb hm (he hal1) rfl ?_
           intro j
@@ -795,7 +795,7 @@ theorem slicePrepare_inv (cfg : Cfg) (m : Meta) : (vs : List VE) → ∀ (f : Fo
             · exact hv.1.roots x hx
             · exact hv.2
           · exact hv.1.pool
-        have ih := slicePrepare_inv cfg m vs _ (i + 1) ⟨hnb, hsh⟩ (fun x hx => hk x (by simp [hx])) hal
+        have ih := slicePrepare_inv cfg m ix vs _ (i + 1) ⟨hnb, hsh⟩ (fun x hx => hk x (by simp [hx])) hal
         refine ⟨ih.1, ?_⟩
         intro x hx
         simp only [List.mem_cons] at hx
